@@ -197,7 +197,7 @@ def cells_from_data(data):
                   evaluation_date=date_as(D.fromisoformat(d["ev"]), fl), metadata=meta_from_data(d["meta"]),
                   values={k: val_from_data(v) for k, v in d["values"].items()})
         if d["cls"] == "IncrementalCell":
-            c = IncrementalCell(prev_evaluation_date=D.fromisoformat(d["prev"]), **kw)
+            c = IncrementalCell(prev_evaluation_date=date_as(D.fromisoformat(d["prev"]), fl), **kw)
         else:
             c = {"Cell": Cell, "CumulativeCell": CumulativeCell}[d["cls"]](**kw)
         c._verif_dates = fl
@@ -210,7 +210,7 @@ def mk_cell(cls, flavour, ps, pe, ev, values, metadata, prev=None):
     kw = dict(period_start=date_as(ps, flavour), period_end=date_as(pe, flavour), evaluation_date=date_as(ev, flavour),
               values=values, metadata=metadata)
     if prev is not None:
-        kw["prev_evaluation_date"] = prev      # (IncrementalCell stores prev as given; kept a plain date)
+        kw["prev_evaluation_date"] = date_as(prev, flavour)
     c = cls(**kw)
     c._verif_dates = flavour
     return c
@@ -649,9 +649,7 @@ class SummGen(Gen):
             spell = respell(m) if r.random() < 0.15 else (m, m)
             n_in_slice = 0
             own_cadence = kind != "layers" and si > 0 and r.random() < 0.4
-            # (cumulative cells only: IncrementalCell compares evaluation_date with prev_evaluation_date as given
-            #  and stores prev_evaluation_date unnormalised, so mixed representations do not construct)
-            flavour = r.choice(["ts", "ts", "dt"]) if (basis == "cum" and r.random() < 0.15) else "date"
+            flavour = r.choice(["ts", "ts", "dt"]) if r.random() < 0.15 else "date"
             flavours.add(flavour)
             for ps, pe, evs in rows_s:
                 prev = ps - datetime.timedelta(days=1)
